@@ -154,7 +154,13 @@ class AsyncTask(futures.FutureBase):
                 # their contexts must be active, so that each __exit__'s pause() is
                 # paired with a resume().
                 self._resume_contexts()
-                self._generator.close()
+                try:
+                    self._generator.close()
+                except Exception:
+                    # The outcome is already set: an error raised by the generator's cleanup
+                    # (e.g. by a context's pause()) must not escape into the scheduler.
+                    if _debug_options.DUMP_EXCEPTIONS:
+                        debug.dump_error(sys.exc_info()[1])
                 self._generator = None
             if _debug_options.COLLECT_PERF_STATS is True:
                 self.collect_perf_stats()
